@@ -191,11 +191,11 @@ def mutate(rng, s: str) -> str:
 
 
 def long_flat(rng) -> str:
-    """Flat chains of 150-650 terms: nesting depth 0, but deep trees / long token queues."""
-    n = rng.choice([150, 300, 450, 650])
-    op = rng.choice([" + ", " - ", "+", " * ", "*", " / "])
-    if "*" in op or "/" in op:
-        n = min(n, 450)          # the right-recursive product parse itself nests one frame per factor
+    """Flat chains of 150-1500 terms: nesting depth 0, but deep trees / long token queues.
+    (Beyond ~990 factors the pinned parser's right-recursive parse_mult raised RecursionError;
+    repaired in /repo, so the whole range is explored for every operator.)"""
+    n = rng.choice([150, 300, 450, 650, 1100, 1500])
+    op = rng.choice([" + ", " - ", "+", " * ", "*", " / ", "/"])
     terms = [rng.choice(["x", "y", "2x", "3", "x^2", "4y", "z"]) for _ in range(n)]
     s = op.join(terms)
     r = rng.random()
@@ -206,6 +206,28 @@ def long_flat(rng) -> str:
     if r < 0.32:
         return s + rng.choice([" +", " )", " ^", " 7 7"])
     return s
+
+
+DEEP_NESTING = 100   # bracket depth from which RecursionError is not a C10 violation ("bounded nesting")
+
+
+def bracket_depth(s: str) -> int:
+    d = m = 0
+    for c in s:
+        if c in "([":
+            d += 1
+            m = max(m, d)
+        elif c in ")]":
+            d -= 1
+    return m
+
+
+def deep_nested(rng) -> str:
+    """Nesting far beyond any recursion limit: the parser is allowed to give up with
+    RecursionError, but the failed call must leave no trace on the parser (C10/C12)."""
+    k = rng.choice([400, 1500])
+    inner = rng.choice(["x", "2x + 1", "4", ""])
+    return "(" * k + inner + ")" * rng.choice([k, k, k - 1, 0])
 
 
 def confusables(rng, s: str):
